@@ -15,6 +15,7 @@ EXTENDS MIRSem, Json, Emit, IOUtils
 
 CONSTANTS NSlots,      \* number of random slots
           Vocab,       \* which template kinds are enabled
+          Abs,         \* TRUE: templates that address the caller's buffer by number (the harness maps it at AbsBaseNat)
           Lean         \* TRUE: no long-lived pointer registers and no global item (fewer loads that keep stores alive: the
                        \* dead-store and alias reasoning of the optimiser is then exercised on the alloca templates)
 
@@ -210,7 +211,8 @@ KindsOf == IF Vocab = "int" THEN KindsInt ELSE IF Vocab = "link" THEN KindsLink
                                                                       "callg14", "icall", "icall5"}) \ {"callg3", "lref1", "lref2", "callva"}   \* functions with at most one result
          ELSE KindsInt \cup KindsFp \cup {"calla", "callg6", "callg7", "rblk", "blkv", "callg12", "callg13", "callg14"}
 NeedFull == {"pld", "pst", "gcall"}
-Kinds == (IF Lean THEN KindsOf \ NeedFull ELSE KindsOf)
+KindsAbs == IF Abs /\ Vocab \in {"all", "link", "int"} THEN {"absld", "absst", "absd"} ELSE {}
+Kinds == (IF Lean THEN KindsOf \ NeedFull ELSE KindsOf) \cup KindsAbs
 
 (* holes of each kind, in order; a hole name selects its domain below *)
 PA == 23 + slot        \* the alloca pointer register of the current slot
@@ -233,6 +235,9 @@ Holes(k) ==
     [] k = "lref1" -> <<"fwd">>
     [] k = "lref2" -> <<"fwd", "anyslot">>
     [] k = "idx" -> <<"isrcreg", "imemty", "ireg", "scale">>
+    [] k = "absld" -> <<"ireg", "imemty", "ascale", "aoff">>
+    [] k = "absst" -> <<"imemty", "ascale", "aoff", "isrc">>
+    [] k = "absd" -> <<"ireg", "imemty", "aoff">>
     [] k = "rload" -> <<"ireg", "imemty">>
     [] k = "rcall" -> <<"ireg", "isrc">>
     [] k = "bsblk" -> <<"ireg", "isrc", "asize">>
@@ -287,6 +292,7 @@ Dom(h) ==
     [] h = "i2fop" -> {"i2", "ui2"}
     [] h = "preg" -> PRegs
     [] h = "nva" -> 0..3
+    [] h = "ascale" -> {2, 4, 8} [] h = "aoff" -> {128, 136, 144, 152}
     [] h = "aty" -> {[insn |-> "addr", ty |-> "i64"], [insn |-> "addr32", ty |-> "i32"], [insn |-> "addr32", ty |-> "u32"],
                      [insn |-> "addr16", ty |-> "i16"], [insn |-> "addr16", ty |-> "u16"], [insn |-> "addr8", ty |-> "i8"],
                      [insn |-> "addr8", ty |-> "u8"]}
@@ -323,6 +329,12 @@ Render(k, v) ==
                          InsIn("mov", Mem("i32", 4, PA, 0, 1), <<Imm(FromNat(77))>>),
                          InsIn("add", v[3], <<Mem("i64", 8, PA, 0, 1), Mem("u32", 4, PA, 0, 1)>>)>>
     [] k = "jmpi" -> <<[op |-> "laddr", d |-> Reg(RTMP2), l |-> v[1]], [op |-> "jmpi", s |-> <<Reg(RTMP2)>>]>>
+    \* the buffer addressed by number: index * scale without base and displacement, and a displacement alone
+    [] k = "absld" -> <<InsIn("mov", Reg(RTMP), <<Imm(FromNat((AbsBaseNat + v[4]) \div v[3]))>>),
+                        InsIn("mov", v[1], <<Mem(v[2], 0, 0, RTMP, v[3])>>)>>
+    [] k = "absst" -> <<InsIn("mov", Reg(RTMP), <<Imm(FromNat((AbsBaseNat + v[3]) \div v[2]))>>),
+                        InsIn("mov", Mem(v[1], 0, 0, RTMP, v[2]), <<v[4]>>)>>
+    [] k = "absd" -> <<InsIn("mov", v[1], <<Mem(v[2], AbsBaseNat + v[3], 0, 0, 1)>>)>>
     \* reference data items: a pointer to gdat + 8 and a function address, both read from the module's reference section
     [] k = "rload" -> <<InsIn("mov", Reg(RTMP), <<DRef5>>), InsIn("mov", Reg(RTMP), <<Mem("i64", 0, RTMP, 0, 1)>>),
                         InsIn("mov", v[1], <<Mem(v[2], 0, RTMP, 0, 1)>>)>>
